@@ -290,6 +290,17 @@ class CSSNamespaceRule(cssrule.CSSRule):
                 return
             else:
                 prefix = self._tokenvalue(prefixtoken)
+        sheet = self.parentStyleSheet
+        if sheet is not None and any(
+            r is not self and r.type == r.NAMESPACE_RULE and r.prefix == prefix
+            for r in sheet.cssRules
+        ):
+            self._log.error(
+                'CSSNamespaceRule: Prefix "%s" is already used in this sheet.'
+                % prefix,
+                error=xml.dom.NoModificationAllowedErr,
+            )
+            return
         # update seq
         for i, x in enumerate(self._seq):
             if x.type == 'prefix':
